@@ -664,8 +664,11 @@ where
             Err(e) => Err(e),
         };
         if let Err(e) = res {
-            // the buffer does not hold the data at the target position: nothing can be
-            // read until another seek succeeds
+            // the buffer does not hold the data at the target position: discard it (a later
+            // seek must not find its target "within the buffer"); nothing can be read until
+            // another seek succeeds
+            let n = self.get_buf().len();
+            self.buf_reader.consume(n);
             self.state = State::Finished;
             return Err(Error::from(e));
         }
